@@ -169,6 +169,21 @@ def gen_c15(rnd, n, thorough=False):
         tags = {'ops': {}}
         def add(op, line):
             lines.append(line); tags['ops'][op] = tags['ops'].get(op, 0) + 1
+        if c % 10 == 3:
+            # the remote-read client against a server that announces more bytes than it sends (the connection is
+            # cut, or the announcement is absurd): an error, with memory in proportion to what arrived
+            layout = [(1, 3)] if rnd.chance(0.5) else [(1, 4), (2, 4)]
+            hb = enc_header_py(2, 0x3f000000, layout)
+            body = hb + b''.join(be32(100) + be32(100 + s_ * n_) + be32(s_) + b''.join(be64(fbits(float(i_))) for i_ in range(n_)) for s_, n_ in layout)
+            rawbody = hb + b''.join(be64(n_) + b''.join(be32(100 + i_) + be64(fbits(float(i_))) for i_ in range(n_)) for s_, n_ in layout)
+            for _ in range(3):
+                kind2 = rnd.pick(['view', 'viewraw'])
+                full = body if kind2 == 'view' else rawbody
+                sent = rnd.pick([full, full, full[:len(hb)], full[:rnd.randint(1, len(full) - 1)], hb[:16]])
+                announced = len(sent) if sent is full and rnd.chance(0.4) else rnd.pick([2 ** 62, 2 ** 63 - 1, 256 * 2 ** 20, 2 ** 31, 2 ** 32 + 5, len(sent) + 1, len(sent) + 4096, 10 ** 9])
+                add('hremote', 'hremote kind=%s len=%d body=%s' % (kind2, announced, hx(sent)))
+            cases.append({'id': 'c15-%d' % c, 'lines': lines, 'tags': tags})
+            continue
         kind = rnd.pick(['decoders', 'decoders', 'file_truncated', 'file_garbage_slots', 'file_garbage_slots', 'file_garbage_slots', 'file_huge_header', 'file_random', 'file_bitflip', 'file_field', 'file_field', 'file_count_page', 'file_base', 'file_base'])
         if kind == 'decoders':
             for _ in range(rnd.randint(3, 8)):
